@@ -106,6 +106,8 @@ def _live_roundtrip(names, ctx, where):
                 from sqlalchemy.exc import SQLAlchemyError
 
                 if isinstance(e, SQLAlchemyError):
+                    if "KeyError" in str(e)[:80] and any(v and "%(" in v for v in names.values()):
+                        sig = "identifier-percent-paren"  # bind-template regex applied to the finished statement text (registered finding)
                     raise Violation(f"C06/sqlite/{sig}", f"{where}: {sig} failed for {names!r}: {type(e).__name__}: {str(e)[:300]}",
                                     observed=str(e)[:500], expected="statement executes")
                 raise
@@ -214,6 +216,15 @@ def _live_names(draw):
 
 def check_names_live(case, ctx):
     names = dict(case)
+    pinned = names.pop("pinned", False)
+    if not pinned:
+        # registered finding C06/sqlite/identifier-percent-paren: on positional paramstyles the finished statement is re-scanned with the
+        # bind-template regex, so an identifier containing "%(" followed later by a bound parameter raises KeyError; trigger kept out
+        # by construction (counted), one pinned replay keeps it
+        for r, v in list(names.items()):
+            if v and "%(" in v:
+                ctx.exclude('identifier containing "%(" (known finding C06/sqlite/identifier-percent-paren)')
+                names[r] = v.replace("%(", "%[")
     # SQLite identifiers are case-insensitive and objects share namespaces: keep the roles distinct
     fixed = {"id", "par", "vf_parent", "pid", "main", "temp"}
     seen = set(fixed)
